@@ -84,3 +84,40 @@ def call_sut(fn, *args, **kwargs):
     except Exception as exc:  # pylint: disable=broad-except
         raise PropertyFailure("%s raised %s: %s" % (getattr(fn, "__name__", fn),
                                                      type(exc).__name__, exc)) from exc
+
+
+PROBE_VALUES = [False, True, 0, 1, None, "", "x", 2.5, -1]
+
+
+def probe_options(probes):
+    """Optional parameters that the tree under test has *beyond* the pinned signatures: call each function once per
+    such parameter and probe value (result and exceptions ignored) before any property case runs.  A caller who uses
+    a new option must not change what later default calls do - the properties quantify over every call, whatever
+    other calls the process made before - so option state that leaks (a module-level table edited in place, a
+    class-level list) shows up in the ordinary cases that follow.  On a tree without new parameters nothing is
+    called.  `probes`: [(callable, [pinned parameter names], sample positional args), ...].
+    Returns the list of "<function>(<param>=<value>)" calls made."""
+    import copy
+    import inspect
+    done = []
+    for fn, pinned, sample in probes:
+        try:
+            params = inspect.signature(fn).parameters
+        except (TypeError, ValueError):
+            continue
+        for pname, par in params.items():
+            if pname in pinned or pname in ("self", "cls") or par.default is inspect.Parameter.empty:
+                continue
+            if par.kind not in (par.POSITIONAL_OR_KEYWORD, par.KEYWORD_ONLY):
+                continue
+            values = [not par.default] if isinstance(par.default, bool) else \
+                [v for v in PROBE_VALUES if not (v == par.default and type(v) is type(par.default))]
+            for value in values:
+                try:
+                    args = sample() if callable(sample) else copy.deepcopy(list(sample))
+                    call_budget(fn, tuple(args), {pname: value}, line_budget=200000)
+                except BaseException as exc:  # pylint: disable=broad-except
+                    if isinstance(exc, KeyboardInterrupt):
+                        raise
+                done.append("%s(%s=%r)" % (getattr(fn, "__qualname__", fn), pname, value))
+    return done
